@@ -14,7 +14,9 @@ import (
 
 // render produces the SMT-LIB text of one obligation: prelude, all declarations, every assumption
 // and definition that precedes the obligation in program order, then the negated goal.
-func (o *Oblig) render(forCVC5 bool) string {
+func (o *Oblig) render(forCVC5 bool) string { return o.renderV(forCVC5, false) }
+
+func (o *Oblig) renderV(forCVC5 bool, mbqi bool) string {
 	fg := o.fg
 	var sb strings.Builder
 	sb.WriteString("; obligation " + o.Name + " of " + o.Fn + "\n")
@@ -23,6 +25,13 @@ func (o *Oblig) render(forCVC5 bool) string {
 	}
 	if forCVC5 {
 		sb.WriteString("(set-logic ALL)\n")
+		for _, l := range strings.Split(prelude, "\n") {
+			if strings.HasPrefix(l, "(set-option :smt.") || strings.HasPrefix(l, "(set-option :auto_config") {
+				continue
+			}
+			sb.WriteString(l + "\n")
+		}
+	} else if mbqi {
 		for _, l := range strings.Split(prelude, "\n") {
 			if strings.HasPrefix(l, "(set-option :smt.") || strings.HasPrefix(l, "(set-option :auto_config") {
 				continue
@@ -147,7 +156,16 @@ func discharge(o *Oblig, dir string, idx int, tier string, seed int) {
 		// confirm with a model
 		return
 	}
-	// unknown / timeout: try the other solvers
+	// unknown / timeout: E-matching was not enough; try z3 with model-based quantifier instantiation
+	mfile := base + ".mbqi.smt2"
+	os.WriteFile(mfile, []byte(o.renderV(false, true)), 0o644)
+	rm, outm, dtm := runSolver(solvers[0], mfile, timeout, seed)
+	o.TimeS += dtm
+	if rm == "unsat" {
+		o.Result, o.Solver, o.RawOut = rm, solvers[0].name+"(mbqi)", outm
+		return
+	}
+	// then the other solvers
 	r2, out2, dt2 := runSolver(solvers[1], file, timeout, seed)
 	o.TimeS += dt2
 	if r2 == "unsat" || r2 == "sat" {
